@@ -292,6 +292,12 @@ def history(case, r):
             if "mesh" in produced and int(ds.meta["ncells"]) != int(fresh.meta["ncells"]):
                 r.bad(["meta-ncells", call["k"]], f"{where}: {ds.meta['ncells']} vs fresh {fresh.meta['ncells']}")
                 return
+            if "part" in produced and len(ds["part"].keys()):
+                nrows_p = len(ds["part"][list(ds["part"].keys())[0]])
+                if int(ds.meta["nparticles"]) != nrows_p:
+                    r.bad(["meta-nparticles-vs-group", call["k"]], f"{where}: meta nparticles {ds.meta['nparticles']} but the part group "
+                          f"has {nrows_p} rows")
+                    return
             if "part" in produced and int(ds.meta["nparticles"]) != int(fresh.meta["nparticles"]):
                 r.bad(["meta-nparticles", call["k"]], f"{where}: {ds.meta['nparticles']} vs fresh {fresh.meta['nparticles']}; "
                       f"files {nfiles} vs {ffiles}")
